@@ -207,7 +207,10 @@ func SameObject(a, b interface{}) bool {
 		return false
 	}
 	switch va.Kind() {
-	case reflect.Map, reflect.Slice, reflect.Pointer:
+	case reflect.Slice:
+		// same backing array; slices without capacity share nothing (the runtime points all of them at one dummy)
+		return va.Cap() > 0 && vb.Cap() > 0 && va.Pointer() == vb.Pointer()
+	case reflect.Map, reflect.Pointer:
 		return va.Pointer() != 0 && va.Pointer() == vb.Pointer()
 	}
 	return false
